@@ -31,3 +31,32 @@ func TestC13UpdateCannotChangeKey(t *testing.T) {
 	}
 }
 
+
+// Blocked: TestUpdateItemWithConditionalExpression (both clients) supplies :ntyp for an expression that uses
+// :ntype and expects ConditionalCheckFailedException; language tests evaluate undefined :names as missing.
+// C16: placeholders that were never supplied are rejected; "used" means used as a token.
+func TestC16Placeholders(t *testing.T) {
+	ctx := context.Background()
+	c := newTbl(t, "")
+	put(t, c, av{"h": S("1"), "v": S("a")})
+	scan := func(filter string, names map[string]string, vals av) error {
+		_, err := c.Scan(ctx, &dynamodb.ScanInput{TableName: aws.String("tbl"), FilterExpression: aws.String(filter), ExpressionAttributeNames: names, ExpressionAttributeValues: vals})
+		return err
+	}
+	if err := scan("v = :nope", nil, nil); err == nil {
+		t.Errorf("filter with the undefined value placeholder :nope accepted")
+	}
+	if err := scan("#nope = :v", nil, av{":v": S("a")}); err == nil {
+		t.Errorf("filter with the undefined name placeholder #nope accepted")
+	}
+	if err := scan("v = :ab", nil, av{":ab": S("a"), ":a": S("a")}); err == nil {
+		t.Errorf(":a is supplied but only :ab is used: accepted")
+	}
+	if err := scan("#vv = :a", map[string]string{"#vv": "v", "#v": "v"}, av{":a": S("a")}); err == nil {
+		t.Errorf("#v is supplied but only #vv is used: accepted")
+	}
+	if err := scan("#v = :a", map[string]string{"#v": "v"}, av{":a": S("a")}); err != nil {
+		t.Errorf("compliant request rejected: %v", err)
+	}
+}
+
